@@ -229,8 +229,15 @@ def exception_covers(handler_type_node, repo, module, wanted):
     }[wanted]
     if handler_type_node is None:
         return True
-    elts = handler_type_node.elts if isinstance(handler_type_node, ast.Tuple) else [handler_type_node]
-    for e in elts:
+
+    def flat(n, depth=0):
+        """exception classes named by the clause; a module-level NAME = (A, B) / NAME = A reads as what it is bound to"""
+        if isinstance(n, ast.Tuple):
+            return [x for e in n.elts for x in flat(e, depth)]
+        if isinstance(n, ast.Name) and depth < 4 and module is not None and n.id in getattr(module, "constants", {}):
+            return flat(module.constants[n.id], depth + 1)
+        return [n]
+    for e in flat(handler_type_node):
         ch = attr_chain(e)
         if ch and ch[-1] in supers:
             return True
